@@ -20,6 +20,7 @@ RULE = ("one run = 1-2 simulated terminals with 1-4 FMMUs and 2-10 mapping tasks
         "distinct = distinct sequences of (enter/exit, terminal, direction, slot) events; "
         "non-trivial = at least two mappings were live at the same time")
 RULE += "; since the 4th session windows may start at logical address 0, a third of the 'groups' runs use fast groups, which are also cancelled and started again at once"
+RULE += '; the Terminal objects of the basic scenarios are brought up by the real Terminal.initialize()'
 COMPONENTS = {
     "real": ["ebpfcat.ethercat.Terminal.map_fmmu/write", "EtherCat.roundtrip path"],
     "stub": ["event loop", "socket", "wire", "ESC FMMU register file"]}
